@@ -66,6 +66,12 @@ def run_verus(path, rlimit=None, threads=None, timeout=1800):
             res.compile_error = True
     else:
         res.compile_error = True
+    if "panicked at" in res.raw_stderr and ("rust_verify" in res.raw_stderr or "internal error" in res.raw_stderr):
+        res.compile_error = True
+        i = res.raw_stderr.find("panicked at")
+        res.errors.append(dict(msg="verus crashed: " + " ".join(res.raw_stderr[i:i + 300].split()), line=None, text="", labels=[], rendered=res.raw_stderr[i:i + 600], code="ICE"))
+    if res.rc not in (0, 1) and not res.functions:
+        res.compile_error = True
     for line in res.raw_stderr.splitlines():
         line = line.strip()
         if not line.startswith("{"):
